@@ -168,7 +168,10 @@ def evalNodes (nodes : Array CNode) (env : Env) : Array SigMap :=
 for `always` cells this is one application of the written function (C04). -/
 def WriteRule.next (nodes : Array CNode) (vals : Array SigMap) (cur : I32) : WriteRule → I32
   | .always d => argVal nodes vals d
-  | .gated d en => if (argVal nodes vals en).toInt > 0 then argVal nodes vals d else cur
+  | .gated d en =>
+    -- enable > 0: take the data; enable = 0: hold; a negative enable closes both gates (the cell clears)
+    let e := (argVal nodes vals en).toInt
+    if e > 0 then argVal nodes vals d else if e = 0 then cur else 0
   | .latch v s r setPrio =>
     let sOn := (argVal nodes vals s) != 0
     let rOn := (argVal nodes vals r) != 0
